@@ -31,6 +31,10 @@ impl Sched {
     /// swarm-style choice of a schedule strategy for `sync` granularity
     pub fn swarm(rng: &mut Rng, horizon: u64) -> Sched {
         let seed = rng.next_u64();
+        if !cfg!(feature = "pl") {
+            // std-locks build: no schedule exploration (see Cargo.toml); the plan runs as a total order
+            return Sched::op_order(seed);
+        }
         let mut s = Sched { sync: true, kind: "rtb".into(), p: 0, depth: 0, horizon, points: vec![], switches: vec![], seed, step_cap: 50_000 };
         match rng.below(10) {
             0 => {}
